@@ -71,6 +71,7 @@ func checkC18(c *Ctx) {
 	c18Ready(c, consts)
 	c18FoldBeforeRelease(c)
 	c18Confinement(c)
+	c18Accumulate(c)
 	c18Cycle(c)
 	c.expect("typestate.transition", 4)
 }
@@ -588,6 +589,171 @@ func c18FoldBeforeRelease(c *Ctx) {
 		return true
 	})
 	c.check("release.loop-stops-on-error", rl.Name, rl.Body.Pos(), okLoop, "runLoop's loop must test c.errs == nil (errors, including cycles found by initTasks, stop dispatch)")
+
+	// the loop blocks on taskCh exactly when a goroutine is outstanding:
+	// `running = true` may be set only for a task that is in state Running at
+	// the scan or whose goroutine is started in the same iteration, and every
+	// started goroutine sets it.
+	var runningObj types.Object
+	setRunning := g.find(func(n ast.Node) bool {
+		as, ok := n.(*ast.AssignStmt)
+		if !ok || len(as.Lhs) != 1 || len(as.Rhs) != 1 || as.Tok != token.ASSIGN {
+			return false
+		}
+		id, ok := as.Lhs[0].(*ast.Ident)
+		if !ok || id.Name != "running" || exprString(as.Rhs[0]) != "true" {
+			return false
+		}
+		runningObj = info.Uses[id]
+		return true
+	})
+	head := -1
+	for _, n := range g.Nodes {
+		if n.Kind.String() == "RangeLoop" {
+			head = n.ID
+		}
+	}
+	okFlag := len(setRunning) >= 2 && len(goNodes) == 1 && head >= 0 && runningObj != nil
+	detFlag := ""
+	if okFlag {
+		// which sets are dominated by the `case Running` edge?
+		viaRunningCase := g.reach([]int{head}, nil, func(from int, e GEdge) bool {
+			if e.SwitchTag == nil || !e.Truth {
+				return false
+			}
+			k, ok := identObj(info, e.CaseVal).(*types.Const)
+			return ok && k.Name() == "Running"
+		})
+		for _, s := range setRunning {
+			if !viaRunningCase[s] {
+				continue // only reachable through `case Running`
+			}
+			// otherwise the goroutine must be started in the same iteration:
+			// before it (go ... ; running = true) or after it on every path
+			before := !g.reach([]int{head}, func(id int) bool { return id == goNodes[0] }, nil)[s]
+			after := !g.reach([]int{s}, func(id int) bool { return id == goNodes[0] }, nil)[head]
+			if !before && !after {
+				okFlag = false
+				detFlag = fmt.Sprintf("; `running = true` at %s can be reached for a task for which no goroutine is started", c.pos(g.pos(s)))
+			}
+		}
+		// every started goroutine is counted
+		sets := setOf(setRunning)
+		setBefore := !g.reach([]int{head}, func(id int) bool { return sets[id] }, nil)[goNodes[0]]
+		setAfter := !g.reach([]int{goNodes[0]}, func(id int) bool { return sets[id] }, nil)[head]
+		if !setBefore && !setAfter {
+			okFlag = false
+			detFlag += "; a goroutine can be started without `running = true` in that iteration (the loop would stop while the task runs)"
+		}
+	}
+	c.check("release.running-flag-matches-goroutines", rl.Name, rl.Body.Pos(), okFlag,
+		"runLoop waits on taskCh iff `running`; it must be set exactly for tasks already Running or started in this iteration — a task dropped because its path vanished must not count, or Run never returns"+detFlag)
+}
+
+// c18Accumulate: results a runner reports with Task.Fill accumulate until the
+// controller folds them into the configuration.
+func c18Accumulate(c *Ctx) {
+	p := c.pkg("tools/flow")
+	n := 0
+	for _, f := range c.funcs(p) {
+		g := c.graph(f)
+		info := f.Info()
+		isUpdate := func(e ast.Expr) (ast.Expr, bool) {
+			sel, ok := ast.Unparen(e).(*ast.SelectorExpr)
+			if !ok || sel.Sel.Name != "update" {
+				return nil, false
+			}
+			v, ok := info.Uses[sel.Sel].(*types.Var)
+			return sel.X, ok && v.IsField() && v.Pkg() != nil && strings.HasSuffix(v.Pkg().Path(), "tools/flow")
+		}
+		for _, nd := range g.Nodes {
+			as, ok := nd.N.(*ast.AssignStmt)
+			if !ok {
+				continue
+			}
+			for i, l := range as.Lhs {
+				recv, ok := isUpdate(l)
+				if !ok || len(as.Rhs) != len(as.Lhs) {
+					continue
+				}
+				n++
+				rhs := as.Rhs[i]
+				key := fmt.Sprintf("%s#update%d", f.Name, n)
+				if isNilIdent(rhs) {
+					// reset: only after the pending value was read in this function
+					readers := map[int]bool{}
+					for _, m := range g.Nodes {
+						if m.N == nil || m.ID == nd.ID {
+							continue
+						}
+						if a2, ok := m.N.(*ast.AssignStmt); ok {
+							for _, r := range a2.Rhs {
+								if _, ok := isUpdate(r); ok {
+									readers[m.ID] = true
+								}
+							}
+						}
+					}
+					c.check("results.fill-accumulates", key, as.Pos(), len(readers) > 0 && g.mustPassNode(nd.ID, readers),
+						"Task.update may be reset to nil only after the pending result was taken (read into the conjunct being added)")
+					continue
+				}
+				mentions := false
+				ast.Inspect(rhs, func(x ast.Node) bool {
+					if e, ok := x.(ast.Expr); ok {
+						if r2, ok := isUpdate(e); ok && exprString(r2) == exprString(recv) {
+							mentions = true
+						}
+					}
+					return true
+				})
+				if mentions {
+					c.check("results.fill-accumulates", key, as.Pos(), true, "extends the pending result")
+					continue
+				}
+				// a plain store is allowed only where the pending result is known to be nil,
+				// or of a local that was extended with the pending result on the way
+				extend := map[int]bool{}
+				if v := identObj(info, rhs); v != nil {
+					for _, m := range g.Nodes {
+						a2, ok := m.N.(*ast.AssignStmt)
+						if !ok || len(a2.Lhs) != len(a2.Rhs) {
+							continue
+						}
+						for j, l2 := range a2.Lhs {
+							if identObj(info, l2) != v {
+								continue
+							}
+							ast.Inspect(a2.Rhs[j], func(x ast.Node) bool {
+								if e, ok := x.(ast.Expr); ok {
+									if r2, ok := isUpdate(e); ok && exprString(r2) == exprString(recv) {
+										extend[m.ID] = true
+									}
+								}
+								return true
+							})
+						}
+					}
+				}
+				r := g.reach([]int{g.Entry}, func(id int) bool { return extend[id] }, func(from int, e GEdge) bool {
+					if e.Cond == nil {
+						return false
+					}
+					be, ok := ast.Unparen(e.Cond).(*ast.BinaryExpr)
+					if !ok || !isNilIdent(be.Y) {
+						return false
+					}
+					if _, ok := isUpdate(be.X); !ok {
+						return false
+					}
+					return (be.Op == token.EQL) == e.Truth
+				})
+				c.check("results.fill-accumulates", key, as.Pos(), !r[nd.ID],
+					"a store to Task.update that does not extend the pending value (t.update & x) is allowed only where t.update == nil: a runner may call Fill several times before the controller folds the result, and every reported value must reach the configuration")
+			}
+		}
+	}
+	c.expect("results.fill-accumulates", 2)
 }
 
 func c18Confinement(c *Ctx) {
